@@ -187,6 +187,13 @@ class StaticSystem(System):
                             if f"{t.value}.{st.value}" not in CATALOGUE:
                                 viol.append(violation("static", {"clause": "static", "kind": "literal-outside-catalogue"},
                                                       f"{rel}:{node.lineno} logs [{t.value}.{st.value}], not in the catalogue"))
+                        elif isinstance(st, ast.Attribute) and isinstance(st.value, ast.Name) and st.value.id == "MystWarnings":
+                            # the logging API formats the subtype with str(): an enum member prints 'MystWarnings.X', not its catalogue value
+                            viol.append(violation("static", {"clause": "static", "kind": "enum-member-as-subtype"},
+                                                  f"{rel}:{node.lineno} passes the enum member MystWarnings.{st.attr} as log subtype (its .value is the catalogue tag)"))
+                        elif isinstance(st, ast.Attribute) and st.attr == "value" and isinstance(st.value, ast.Attribute) and isinstance(st.value.value, ast.Name) \
+                                and st.value.value.id == "MystWarnings" and st.value.attr not in members:
+                            viol.append(violation("static", {"clause": "static", "kind": "not-a-member"}, f"{rel}:{node.lineno} MystWarnings.{st.value.attr} is not a member"))
                 elif recv.endswith("reporter") and "warnings_.py" not in rel and not _in_function(tree, node, "create_highlighted_code_block") and not (rel == "parsers/docutils_.py" and _in_function(tree, node, "parse")):
                     # a direct docutils report bypasses the typed catalogue
                     sites += 1
@@ -356,6 +363,7 @@ SX_TRIG = {
     "attribute": "![a](b.png){width=1x}\n",
     "substitution": "{{ undefined_var }}\n",
     "footnote": "[^u]: unref\n",
+    "deprecated": "plain text, the trigger is `attrs_image` in conf.py\n",
 }
 SX_EXPECT = {"xref_missing": "myst.xref_missing", "iref_missing": "myst.iref_missing", "footnote": "ref.footnote"}
 
@@ -409,7 +417,7 @@ class SphinxSystem(System):
         src.mkdir(parents=True)
         (src / "conf.py").write_text(
             "extensions=['myst_parser','sphinx.ext.intersphinx']\n"
-            "myst_enable_extensions=['strikethrough','substitution','attrs_inline','html_image','html_admonition','colon_fence']\n"
+            "myst_enable_extensions=['strikethrough','substitution','attrs_inline','html_image','html_admonition','colon_fence'" + (",'attrs_image'" if key == "deprecated" else "") + "]\n"
             f"suppress_warnings={sup!r}+['image.not_readable']\nmyst_heading_anchors=2\nkeep_warnings=True\n")
         (src / "index.md").write_text(text)
         app = SphinxTestApp(srcdir=src, buildername="html")
